@@ -912,6 +912,46 @@ func (e *Exec) sxCall(env *SpecEnv, n *ast.CallExpr) SVal {
 	case "strOfBytes":
 		v := e.sx(env, n.Args[0])
 		return SVal{T: e.strOfBytes(env.heap(), v.T), Typ: types.Typ[types.String]}
+	case "dbSame", "dbRecSame", "dbFieldSame":
+		// the whole ghost database / the record of bucket b is as it was in the old state
+		if env.old == nil {
+			return e.specErr(env, n, name+" needs an old state")
+		}
+		has, khas, vlen, val, _ := e.dbMaps()
+		cur := env.heap()
+		if name == "dbSame" {
+			var cs []string
+			for _, m := range []string{has, khas, vlen, val} {
+				cs = append(cs, eq(e.hget(cur, m), e.hget(env.old, m)))
+			}
+			return SVal{T: and(cs...), Typ: boolT}
+		}
+		b := e.mat(env, e.sx(env, n.Args[0]))
+		var cs []string
+		if name == "dbFieldSame" {
+			k := e.mat(env, e.sx(env, n.Args[1]))
+			for _, m := range []string{khas, vlen, val} {
+				cs = append(cs, eq(sel(sel(e.hget(cur, m), b), k), sel(sel(e.hget(env.old, m), b), k)))
+			}
+			return SVal{T: and(cs...), Typ: boolT}
+		}
+		for _, m := range []string{has, khas, vlen, val} {
+			cs = append(cs, eq(sel(e.hget(cur, m), b), sel(e.hget(env.old, m), b)))
+		}
+		return SVal{T: and(cs...), Typ: boolT}
+	case "dbHas", "dbKey", "dbLen", "dbByte":
+		// ghost database (models_bolt.go): bucket b exists / key k present in b / length and bytes of the value
+		has, khas, vlen, val, _ := e.dbMaps()
+		b := e.mat(env, e.sx(env, n.Args[0]))
+		switch name {
+		case "dbHas":
+			return SVal{T: sel(e.hget(env.heap(), has), b), Typ: boolT}
+		case "dbKey":
+			return SVal{T: sel(sel(e.hget(env.heap(), khas), b), e.mat(env, e.sx(env, n.Args[1]))), Typ: boolT}
+		case "dbLen":
+			return SVal{T: sel(sel(e.hget(env.heap(), vlen), b), e.mat(env, e.sx(env, n.Args[1]))), Typ: intT}
+		}
+		return SVal{T: sel(sel(sel(e.hget(env.heap(), val), b), e.mat(env, e.sx(env, n.Args[1]))), e.mat(env, e.sx(env, n.Args[2]))), Typ: types.Typ[types.Byte]}
 	case "called":
 		lit, ok := n.Args[0].(*ast.BasicLit)
 		if !ok {
